@@ -1,11 +1,420 @@
-// Package c02 - correspondence harness for C02 (stub: not built yet).
+// Package c02 drives the real verifier.Verify over scenarios of processSignature:
+// level x override x validation outcomes x plugin situations x verdicts x extended
+// attributes, with an instrumented trust store, revocation validator and plugin manager.
 package c02
 
 import (
+	"context"
+	"crypto/x509"
 	"errors"
+	"fmt"
+	"sort"
+	"time"
 
+	revresult "github.com/notaryproject/notation-core-go/revocation/result"
+	"github.com/notaryproject/notation-core-go/signature"
+	"github.com/notaryproject/notation-go"
+	"github.com/notaryproject/notation-go/plugin"
+	"github.com/notaryproject/notation-go/verifier"
+	"github.com/notaryproject/notation-go/verifier/trustpolicy"
 	"github.com/notaryproject/notation-go/xverif/common"
+	pluginfw "github.com/notaryproject/notation-plugin-framework-go/plugin"
+	"github.com/opencontainers/go-digest"
+	ocispec "github.com/opencontainers/image-spec/specs-go/v1"
 )
 
-// Run generates the cases of C02.
-func Run(c *common.Ctx) error { return errors.New("C02: harness not built yet") }
+type ExtAttr struct {
+	Key      string `json:"key"`
+	Critical bool   `json:"critical"`
+}
+
+type Input struct {
+	Level             string      `json:"level"`
+	Override          [][2]string `json:"override"`
+	PluginAttr        string      `json:"pluginAttr"`
+	MinVerAttr        string      `json:"minVerAttr"`
+	ExtAttrs          []ExtAttr   `json:"extAttrs"`
+	PluginState       string      `json:"pluginState"`
+	PluginVersion     string      `json:"pluginVersion"`
+	CapIdentity       bool        `json:"capIdentity"`
+	CapRevocation     bool        `json:"capRevocation"`
+	Trust             string      `json:"trust"`
+	IdentityMatch     bool        `json:"identityMatch"`
+	Expired           bool        `json:"expired"`
+	TimestampOk       bool        `json:"timestampOk"`
+	Revocation        string      `json:"revocation"`
+	PluginCallError   bool        `json:"pluginCallError"`
+	Processed         []string    `json:"processed"`
+	VerdictIdentity   string      `json:"verdictIdentity"`
+	VerdictRevocation string      `json:"verdictRevocation"`
+}
+
+type Result struct {
+	Type   string `json:"type"`
+	Action string `json:"action"`
+	Failed bool   `json:"failed"`
+}
+
+type Obs struct {
+	Accepted             bool     `json:"accepted"`
+	Results              []Result `json:"results"`
+	StoreLoads           int      `json:"storeLoads"`
+	ValidatorCalls       int      `json:"validatorCalls"`
+	ManagerGets          int      `json:"managerGets"`
+	PluginVerifyCaps     []string `json:"pluginVerifyCaps"`     // null when the plugin was not executed
+	PluginAttrsToProcess []string `json:"pluginAttrsToProcess"` // null when the plugin was not executed
+}
+
+const pluginName = "verif-plugin"
+
+var target = ocispec.Descriptor{MediaType: "application/vnd.oci.image.manifest.v1+json", Digest: digest.FromString("c02 artifact"), Size: 12}
+
+type world struct {
+	good, expiredLeaf *common.Chain // same subjects; expiredLeaf's leaf certificate is no longer valid
+	unrelated         *common.Chain
+	envCache          map[string][]byte
+}
+
+func newWorld() *world {
+	now := time.Now()
+	nb := now.Add(-48 * time.Hour)
+	leafName := common.Name("c02 leaf")
+	return &world{
+		good:        common.MakeChain(common.ChainOpts{Tag: "c02", LeafSubject: &leafName, RootNB: nb, LeafNB: nb}),
+		expiredLeaf: common.MakeChain(common.ChainOpts{Tag: "c02", LeafSubject: &leafName, RootNB: nb, LeafNB: nb, LeafNA: now.Add(-30 * time.Minute)}),
+		unrelated:   common.MakeChain(common.ChainOpts{Tag: "c02 unrelated", RootNB: nb, LeafNB: nb}),
+		envCache:    map[string][]byte{},
+	}
+}
+
+func (w *world) chain(in Input) *common.Chain {
+	if in.TimestampOk {
+		return w.good
+	}
+	return w.expiredLeaf
+}
+
+// envelope builds (and caches) the signature for the envelope-related part of the scenario.
+func (w *world) envelope(in Input, format string) []byte {
+	key := fmt.Sprint(format, in.PluginAttr, in.MinVerAttr, in.PluginVersion, in.ExtAttrs, in.Expired, in.TimestampOk)
+	if b, ok := w.envCache[key]; ok {
+		return b
+	}
+	var attrs []signature.Attribute
+	switch in.PluginAttr {
+	case "notCritical":
+		attrs = append(attrs, signature.Attribute{Key: verifier.HeaderVerificationPlugin, Critical: false, Value: pluginName})
+	case "notString":
+		attrs = append(attrs, signature.Attribute{Key: verifier.HeaderVerificationPlugin, Critical: true, Value: 42})
+	case "blank":
+		attrs = append(attrs, signature.Attribute{Key: verifier.HeaderVerificationPlugin, Critical: true, Value: "  "})
+	case "named":
+		attrs = append(attrs, signature.Attribute{Key: verifier.HeaderVerificationPlugin, Critical: true, Value: pluginName})
+	}
+	minVer := "1.0.0"
+	if in.PluginVersion == "tooOld" {
+		minVer = "2.0.0"
+	}
+	switch in.MinVerAttr {
+	case "notCritical":
+		attrs = append(attrs, signature.Attribute{Key: verifier.HeaderVerificationPluginMinVersion, Critical: false, Value: minVer})
+	case "notString":
+		attrs = append(attrs, signature.Attribute{Key: verifier.HeaderVerificationPluginMinVersion, Critical: true, Value: 7})
+	case "blank":
+		attrs = append(attrs, signature.Attribute{Key: verifier.HeaderVerificationPluginMinVersion, Critical: true, Value: " "})
+	case "invalidSemver":
+		attrs = append(attrs, signature.Attribute{Key: verifier.HeaderVerificationPluginMinVersion, Critical: true, Value: "1.x"})
+	case "valid":
+		attrs = append(attrs, signature.Attribute{Key: verifier.HeaderVerificationPluginMinVersion, Critical: true, Value: minVer})
+	}
+	for _, a := range in.ExtAttrs {
+		attrs = append(attrs, signature.Attribute{Key: a.Key, Critical: a.Critical, Value: "v-" + a.Key})
+	}
+	now := time.Now().Truncate(time.Second)
+	o := common.EnvOpts{Format: format, Chain: w.chain(in), Target: &target, ExtAttrs: attrs, SigningTime: now.Add(-2 * time.Hour)}
+	if in.Expired {
+		o.Expiry = now.Add(-time.Hour)
+	} else {
+		o.Expiry = now.Add(24 * time.Hour)
+	}
+	b := common.MustSign(o)
+	w.envCache[key] = b
+	return b
+}
+
+func runCase(w *world, in Input, format string) Obs {
+	env := w.envelope(in, format)
+	chain := w.chain(in)
+
+	store := common.NewMemStore()
+	switch in.Trust {
+	case "found":
+		store.Certs["ca:c02"] = []*x509.Certificate{chain.Root().Cert}
+	case "notFound":
+		store.Certs["ca:c02"] = []*x509.Certificate{w.unrelated.Root().Cert}
+	case "emptyStores":
+		store.Empty["ca:c02"] = true
+	case "storeError":
+		store.Errs["ca:c02"] = errors.New("cannot load store")
+	}
+	rev := &common.ScriptedRevocation{}
+	switch in.Revocation {
+	case "ok":
+		rev.Results = common.UniformResults(revresult.ResultOK)
+	case "revoked":
+		rev.Results = common.VectorResults([]revresult.Result{revresult.ResultRevoked, revresult.ResultOK})
+	case "unknown":
+		rev.Results = common.VectorResults([]revresult.Result{revresult.ResultUnknown, revresult.ResultOK})
+	default:
+		rev.Results = func([]*x509.Certificate) ([]*revresult.CertRevocationResult, error) {
+			return nil, errors.New("validator failure")
+		}
+	}
+	identity := "x509.subject: C=US, ST=WA, O=Notary, CN=c02 leaf"
+	if !in.IdentityMatch {
+		identity = "x509.subject: C=US, ST=WA, O=Notary, CN=c02 somebody else"
+	}
+	ov := map[trustpolicy.ValidationType]trustpolicy.ValidationAction{}
+	for _, kv := range in.Override {
+		ov[trustpolicy.ValidationType(kv[0])] = trustpolicy.ValidationAction(kv[1])
+	}
+	if len(ov) == 0 {
+		ov = nil
+	}
+	doc := &trustpolicy.OCIDocument{Version: "1.0", TrustPolicies: []trustpolicy.OCITrustPolicy{{
+		Name:                  "c02",
+		RegistryScopes:        []string{"*"},
+		SignatureVerification: trustpolicy.SignatureVerification{VerificationLevel: in.Level, Override: ov},
+		TrustStores:           []string{"ca:c02"},
+		TrustedIdentities:     []string{identity},
+	}}}
+	sp := &common.ScriptedPlugin{}
+	mgr := &common.ScriptedManager{Plugins: map[string]pluginfw.Plugin{}}
+	var caps []pluginfw.Capability
+	// a signing capability first: it must be filtered out
+	caps = append(caps, pluginfw.CapabilitySignatureGenerator)
+	if in.CapIdentity {
+		caps = append(caps, pluginfw.CapabilityTrustedIdentityVerifier)
+	}
+	if in.CapRevocation {
+		caps = append(caps, pluginfw.CapabilityRevocationCheckVerifier)
+	}
+	version := "1.0.0"
+	if in.PluginVersion == "invalidSemver" {
+		version = "1.0"
+	}
+	sp.Metadata = &pluginfw.GetMetadataResponse{Name: pluginName, Description: "d", Version: version, URL: "u",
+		SupportedContractVersions: []string{"1.0"}, Capabilities: caps}
+	switch in.PluginState {
+	case "metadataError":
+		sp.MetadataErr = errors.New("metadata failure")
+		mgr.Plugins[pluginName] = sp
+	case "installed":
+		mgr.Plugins[pluginName] = sp
+	}
+	resp := &pluginfw.VerifySignatureResponse{VerificationResults: map[pluginfw.Capability]*pluginfw.VerificationResult{}}
+	for _, k := range in.Processed {
+		resp.ProcessedAttributes = append(resp.ProcessedAttributes, k)
+	}
+	switch in.VerdictIdentity {
+	case "success":
+		resp.VerificationResults[pluginfw.CapabilityTrustedIdentityVerifier] = &pluginfw.VerificationResult{Success: true}
+	case "failure":
+		resp.VerificationResults[pluginfw.CapabilityTrustedIdentityVerifier] = &pluginfw.VerificationResult{Success: false, Reason: "no"}
+	}
+	switch in.VerdictRevocation {
+	case "success":
+		resp.VerificationResults[pluginfw.CapabilityRevocationCheckVerifier] = &pluginfw.VerificationResult{Success: true}
+	case "failure":
+		resp.VerificationResults[pluginfw.CapabilityRevocationCheckVerifier] = &pluginfw.VerificationResult{Success: false, Reason: "revoked"}
+	}
+	sp.VerifyResp = resp
+	if in.PluginCallError {
+		sp.VerifyResp, sp.VerifyErr = nil, errors.New("plugin call failed")
+	}
+	opts := verifier.VerifierOptions{OCITrustPolicy: doc, RevocationCodeSigningValidator: rev}
+	if in.PluginState != "managerNil" {
+		opts.PluginManager = mgr
+	}
+	v, err := verifier.NewVerifierWithOptions(store, opts)
+	if err != nil {
+		panic(fmt.Sprintf("c02: NewVerifierWithOptions: %v (level %s override %v)", err, in.Level, in.Override))
+	}
+	outcome, verr := v.Verify(context.Background(), target, env, notation.VerifierVerifyOptions{
+		ArtifactReference: "reg.example/c02@" + target.Digest.String(), SignatureMediaType: format})
+	o := Obs{Accepted: verr == nil, Results: []Result{}}
+	if outcome != nil {
+		for i, r := range outcome.VerificationResults {
+			if i == 0 && r.Type == trustpolicy.TypeIntegrity {
+				if r.Error != nil {
+					panic(fmt.Sprintf("c02: integrity failed on a freshly signed envelope: %v", r.Error))
+				}
+				continue
+			}
+			o.Results = append(o.Results, Result{string(r.Type), string(r.Action), r.Error != nil})
+		}
+	}
+	for _, c := range store.Calls {
+		if c.Type == "ca" || c.Type == "signingAuthority" {
+			o.StoreLoads++
+		}
+	}
+	o.ValidatorCalls = len(rev.Calls)
+	o.ManagerGets = len(mgr.Gets)
+	if len(sp.VerifyRequests) > 0 {
+		req := sp.VerifyRequests[0]
+		o.PluginVerifyCaps = []string{}
+		for _, c := range req.TrustPolicy.SignatureVerification {
+			o.PluginVerifyCaps = append(o.PluginVerifyCaps, string(c))
+		}
+		o.PluginAttrsToProcess = append([]string{}, req.Signature.UnprocessedAttributes...)
+		sort.Strings(o.PluginAttrsToProcess)
+	}
+	return o
+}
+
+// legal overrides per type (none = leave the base action)
+var overrideChoices = map[string][]string{
+	"authenticity":       {"", "enforce", "log"},
+	"authenticTimestamp": {"", "enforce", "log"},
+	"expiry":             {"", "enforce", "log"},
+	"revocation":         {"", "enforce", "log", "skip"},
+}
+var overrideTypes = []string{"authenticity", "authenticTimestamp", "expiry", "revocation"}
+
+func pick[T any](c *common.Ctx, xs []T) T { return xs[c.Rand.Intn(len(xs))] }
+
+// weighted boolean: true with probability p
+func chance(c *common.Ctx, p float64) bool { return c.Rand.Float64() < p }
+
+func genInput(c *common.Ctx) Input {
+	in := Input{Override: [][2]string{}, ExtAttrs: []ExtAttr{}, Processed: []string{}}
+	in.Level = pick(c, []string{"strict", "permissive", "audit"})
+	for _, t := range overrideTypes {
+		if a := pick(c, overrideChoices[t]); a != "" && chance(c, 0.5) {
+			in.Override = append(in.Override, [2]string{t, a})
+		}
+	}
+	// plugin attribute: mostly absent or named, rarely malformed
+	switch r := c.Rand.Float64(); {
+	case r < 0.30:
+		in.PluginAttr = "absent"
+	case r < 0.92:
+		in.PluginAttr = "named"
+	default:
+		in.PluginAttr = pick(c, []string{"notCritical", "notString", "blank"})
+	}
+	switch r := c.Rand.Float64(); {
+	case r < 0.45:
+		in.MinVerAttr = "absent"
+	case r < 0.92:
+		in.MinVerAttr = "valid"
+	default:
+		in.MinVerAttr = pick(c, []string{"notCritical", "notString", "blank", "invalidSemver"})
+	}
+	switch r := c.Rand.Float64(); {
+	case r < 0.80:
+		in.PluginState = "installed"
+	default:
+		in.PluginState = pick(c, []string{"managerNil", "notInstalled", "metadataError"})
+	}
+	switch r := c.Rand.Float64(); {
+	case r < 0.80:
+		in.PluginVersion = "ok"
+	default:
+		in.PluginVersion = pick(c, []string{"invalidSemver", "tooOld"})
+	}
+	switch c.Rand.Intn(8) {
+	case 0:
+	case 1, 2:
+		in.CapIdentity = true
+	case 3, 4:
+		in.CapRevocation = true
+	default:
+		in.CapIdentity, in.CapRevocation = true, true
+	}
+	if chance(c, 0.8) {
+		in.Trust = "found"
+	} else {
+		in.Trust = pick(c, []string{"notFound", "emptyStores", "storeError"})
+	}
+	in.IdentityMatch = chance(c, 0.8)
+	in.Expired = chance(c, 0.2)
+	in.TimestampOk = chance(c, 0.8)
+	if chance(c, 0.7) {
+		in.Revocation = "ok"
+	} else {
+		in.Revocation = pick(c, []string{"revoked", "unknown", "validatorError"})
+	}
+	in.PluginCallError = chance(c, 0.07)
+	// extended attributes: none / one / two, mostly critical
+	keys := []string{"com.example.alpha", "com.example.beta"}
+	n := pick(c, []int{0, 0, 1, 1, 2})
+	for k := 0; k < n; k++ {
+		in.ExtAttrs = append(in.ExtAttrs, ExtAttr{Key: keys[k], Critical: chance(c, 0.85)})
+	}
+	// processed attributes: usually all, sometimes a strict subset, sometimes extra
+	for _, a := range in.ExtAttrs {
+		if chance(c, 0.8) {
+			in.Processed = append(in.Processed, a.Key)
+		}
+	}
+	if chance(c, 0.1) {
+		in.Processed = append(in.Processed, "com.example.unrelated")
+	}
+	in.VerdictIdentity = pick(c, []string{"success", "success", "success", "failure", "missing"})
+	in.VerdictRevocation = pick(c, []string{"success", "success", "success", "failure", "missing"})
+	return in
+}
+
+// corpus: witnesses of earlier findings, always run first
+func corpus() []Input {
+	base := Input{Level: "strict", Override: [][2]string{{"revocation", "skip"}}, PluginAttr: "absent", MinVerAttr: "absent",
+		ExtAttrs: []ExtAttr{{"com.example.mustUnderstand", true}}, PluginState: "installed", PluginVersion: "ok",
+		Trust: "found", IdentityMatch: true, TimestampOk: true, Revocation: "ok", Processed: []string{},
+		VerdictIdentity: "success", VerdictRevocation: "success"}
+	// F-C02a: critical attribute, no plugin named
+	a := base
+	// F-C02b: plugin named, revocation-only capability, revocation skipped -> never executed
+	b := base
+	b.PluginAttr, b.CapRevocation = "named", true
+	// the same with the plugin owning identity: executed, attribute unprocessed
+	c := b
+	c.CapIdentity = true
+	return []Input{a, b, c}
+}
+
+// Run: corpus, then a stratified random sample of the scenario product.
+func Run(c *common.Ctx) error {
+	w := newWorld()
+	n := 12000
+	if c.Thorough() {
+		n = 150000
+	}
+	emit := func(in Input) {
+		format := common.MediaJWS
+		if c.Rand.Intn(3) == 0 {
+			format = common.MediaCOSE
+		}
+		o := runCase(w, in, format)
+		c.Emit(in, o)
+		c.Count("level=" + in.Level)
+		c.Count("plugin=" + in.PluginAttr + "/" + in.PluginState)
+		c.Count(fmt.Sprintf("accepted=%v", o.Accepted))
+		c.Count("format=" + format)
+		if o.PluginVerifyCaps != nil {
+			c.Count("plugin-executed")
+		}
+		c.Count(fmt.Sprintf("results=%d", len(o.Results)))
+	}
+	for _, in := range corpus() {
+		emit(in)
+	}
+	for k := 0; k < n; k++ {
+		emit(genInput(c))
+	}
+	c.Note("stratified random scenarios of processSignature (level x legal override x plugin attribute/state/version/capabilities x trust x identity x expiry x timestamp x revocation x verdicts x extended attributes); signatures are real JWS/COSE envelopes verified by the real verifier.Verify with instrumented trust store, revocation validator and plugin manager")
+	return nil
+}
+
+var _ = plugin.NewCLIManager
